@@ -27,6 +27,11 @@ def wavy(params):
     params: {'modes': [{'A': 4x4 symmetric list, 'k': [4], 'phi': f}, ...]}"""
     modes = [(np.array(m["A"], float), np.array(m["k"], float),
               float(m["phi"])) for m in params["modes"]]
+    # optional "time-odd" shift: g_0i += b_i sin(k.x + phi) sin(w t), which
+    # vanishes on the slice t = 0 while its t-derivative does not
+    tshift = [(np.array(m["b"], float), np.array(m["k"], float),
+               float(m["phi"]), float(m["w"]))
+              for m in params.get("tshift", [])]
 
     def metric(T, X, Y, Z, order=2):
         P = _P(T, X, Y, Z)
@@ -41,6 +46,24 @@ def wavy(params):
             g += _bc(A, nd) * s
             dg += np.einsum('c,ab,...->cab...', k, A, c)
             ddg -= np.einsum('c,d,ab,...->cdab...', k, k, A, s)
+        for b, k3, phi, w in tshift:
+            A = np.zeros((4, 4))
+            A[0, 1:] = A[1:, 0] = b
+            k = np.array([0.0, k3[0], k3[1], k3[2]])
+            th = np.einsum('c,c...->...', k, P) + phi
+            sx, cx = np.sin(th), np.cos(th)
+            st_, ct_ = np.sin(w * P[0]), np.cos(w * P[0])
+            e0 = np.array([1.0, 0, 0, 0])
+            F = sx * st_
+            dF = (np.einsum('c,...->c...', k, cx * st_)
+                  + np.einsum('c,...->c...', e0, w * sx * ct_))
+            ddF = (-np.einsum('c,d,...->cd...', k, k, F)
+                   + np.einsum('c,d,...->cd...', k, e0, w * cx * ct_)
+                   + np.einsum('c,d,...->cd...', e0, k, w * cx * ct_)
+                   - np.einsum('c,d,...->cd...', e0, e0, w * w * F))
+            g += _bc(A, nd) * F
+            dg += np.einsum('ab,c...->cab...', A, dF)
+            ddg += np.einsum('ab,cd...->cdab...', A, ddF)
         return g, dg, ddg
     return metric
 
@@ -317,7 +340,7 @@ def strategies():
 
     @st.composite
     def wavy_spec(draw, periodic_L=None, mask=None, nmodes=(1, 3),
-                  amp=0.3, kmax=1.2, static=False):
+                  amp=0.3, kmax=1.2, static=False, tshift=False):
         """W family.  periodic_L = (Lx,Ly,Lz): wave-vectors commensurate with
         the box (integer wavenumbers in {-1,0,1}, not all zero)."""
         mask = mask or {}
@@ -336,7 +359,20 @@ def strategies():
                     ks[draw(st.integers(0, 2))] = 0.6 * kmax
             kt = 0.0 if static else draw(f(-kmax, kmax))
             modes.append(dict(A=A, k=[kt] + ks, phi=draw(f(0, 6.28))))
-        return dict(family="W", params=dict(modes=modes))
+        prm = dict(modes=modes)
+        if tshift:
+            if periodic_L is not None:
+                ns = [draw(st.integers(-1, 1)) for _ in range(3)]
+                if not any(ns):
+                    ns = [0, 0, 1]
+                ks = [2 * np.pi * ni / L for ni, L in zip(ns, periodic_L)]
+            else:
+                ks = [draw(f(-kmax, kmax)) for _ in range(3)]
+            b = [draw(f(-0.08, 0.08)) for _ in range(3)]
+            b = [v if abs(v) > 0.02 else 0.03 for v in b]
+            prm["tshift"] = [dict(b=b, k=ks, phi=draw(f(0, 6.28)),
+                                  w=draw(f(0.5, 1.5)))]
+        return dict(family="W", params=prm)
 
     @st.composite
     def flat_spec(draw, eps=0.12, kmax=1.2):
